@@ -3,6 +3,7 @@ import os
 import re
 
 from translate import inverse
+from vlib import fingerprint
 from vlib.common import load_known
 
 
@@ -16,11 +17,18 @@ def run(ctx):
         "the PauliRotation and UnitaryMatrix branches of inverse_gate are extracted too (angle scale; conjugated / transposed "
         "flags of the matrix chain np.array(...).conj().T) and validated against the real function; their theorems "
         "(pauli_rotation_inverse_undoes, unitary_matrix_inverse_undoes) are about those regenerated data",
-        "partial: the residual-count arithmetic in binary64, the numerics of the ZNE extrapolation methods (all of them are "
-        "run on noiseless data by the sweep) and qsub Inverse (see C19) are decided by the sweep",
+        "coq/model/PolyFit.v: numpy's Polynomial.fit(...).convert().coef enters noiseless_polynomial_extrapolation_returns_the_exact_value "
+        "through its contract (<= order + 1 coefficients, low to high, least-squares minimiser), validated against polynomial_fitting by "
+        "corr_C12_fit.py; fingerprints of polynomial_fitting, create_polynomial_extrapolate, richardson_extrapolation, zne",
+        "partial: the residual-count arithmetic in binary64, the numerics of the exponential ZNE extrapolation methods (scipy curve_fit; all "
+        "of them are run on noiseless data by the sweep) and qsub Inverse (see C19) are decided by the sweep",
     ]
     known = load_known("C12")
     bad = sorted({m.group(1) for k in known for m in [re.match(r"sweep:inverse_gate:(\w+)$", k)] if m})
     ctx.translate("inverse", inverse.run, os.path.join(ctx.work, "gen"), os.path.join(ctx.work, "invtab.json"), bad)
     ctx.coq(["invtab.v"], ["C12.v", "C12_refuted.v"], optional=("C12_refuted.v",))
+    fingerprint.check(ctx, "packages/algo/quri_parts/algo/utils/fitting.py", ["polynomial_fitting"])
+    fingerprint.check(ctx, "packages/algo/quri_parts/algo/mitigation/zne/zne.py",
+                      ["create_polynomial_extrapolate", "richardson_extrapolation", "zne"])
+    ctx.harness("corr_C12_fit.py", kind="corr")
     ctx.harness("sweep_C12.py")
